@@ -28,7 +28,8 @@ Lemma malloc_reg_core base r m fS fZ fV fC fCB p q :
   exists n c', crun_at base malloc_reg_code n (mkcore r m base fS fZ fV fC fCB) = Some c' /\
     cr c' 1 = p /\ mem_read (cmem c') heap_cell = q /\ cpc c' = r 13 /\ cr c' 14 = r 12 /\ cr c' 15 = r 15 /\
     (forall j, 2 <= j <= 8 -> cr c' j = r j) /\
-    (wf_mem m -> forall b, 0 <= b -> b <> heap_cell -> mem_read (cmem c') b = mem_read m b).
+    (wf_mem m -> forall b, 0 <= b -> b <> heap_cell -> mem_read (cmem c') b = mem_read m b) /\
+    (wf_mem m -> wf_mem (cmem c')).
 Proof.
   intros R0 R1 HC A. unfold alloc, heap_cell, heap_end in *. set (cur := mem_read m 16384) in *.
   destruct (cur =? 0) eqn:Z1.
@@ -44,12 +45,13 @@ Proof.
       cgo 11%nat. cgo 12%nat. cgo 13%nat. cgo 14%nat. cgo 15%nat.
       replace (0 <=? 16385 + r 1 - 49151 - 0) with false by lia.
       cgo 16%nat. cgo 17%nat. cgo 18%nat. rewrite R0. zeval. cgo 19%nat. reflexivity.
-    + cbn [cr cpc cmem]. cbn [Z.eqb Pos.eqb]. repeat split; try reflexivity.
+    + cbn [cr cpc cmem]. cbn [Z.eqb Pos.eqb]. split; [|split; [|split; [|split; [|split; [|split; [|split]]]]]]; try reflexivity.
       * lia.
       * rewrite mrw_same by lia. lia.
       * intros j Hj. repeat match goal with |- context [j =? ?x] => destruct (j =? x) eqn:?; try lia end; try reflexivity.
       * intros WM b Hb Nb. rewrite !mrw_other; try lia; try assumption; try reflexivity.
         apply wf_mw; [assumption|lia|unfold word; lia].
+      * intros WM. apply wf_mw; [apply wf_mw; [assumption|lia|unfold word; lia]|lia|unfold word; lia].
   - destruct (cur + r 1 <? 49151) eqn:LT; [|discriminate A].
     assert (Ep : p = cur) by congruence. assert (Eq : q = cur + r 1) by congruence. clear A.
     assert (NZ : cur mod 65536 =? 0 = false) by (rewrite Z.mod_small by lia; exact Z1).
@@ -62,11 +64,12 @@ Proof.
       cgo 11%nat. cgo 12%nat. cgo 13%nat. cgo 14%nat. cgo 15%nat.
       replace (0 <=? cur + r 1 - 49151 - 0) with false by lia.
       cgo 16%nat. cgo 17%nat. cgo 18%nat. rewrite R0, Z.lor_0_r. cgo 19%nat. reflexivity.
-    + cbn [cr cpc cmem]. cbn [Z.eqb Pos.eqb]. repeat split; try reflexivity.
+    + cbn [cr cpc cmem]. cbn [Z.eqb Pos.eqb]. split; [|split; [|split; [|split; [|split; [|split; [|split]]]]]]; try reflexivity.
       * lia.
       * rewrite mrw_same by lia. lia.
       * intros j Hj. repeat match goal with |- context [j =? ?x] => destruct (j =? x) eqn:?; try lia end; try reflexivity.
       * intros WM b Hb Nb. rewrite mrw_other; try lia; try assumption; reflexivity.
+      * intros WM. apply wf_mw; [assumption|lia|unfold word; lia].
 Qed.
 
 Lemma malloc_reg_valid : Forall (fun i => valid_instr i = true) malloc_reg_code.
@@ -84,7 +87,7 @@ Theorem malloc_reg_contract base s p q :
 Proof.
   intros L P WM R0 W1 A.
   destruct (malloc_reg_core base (getreg s) (mem s) (flag (f_s s)) (flag (f_z s)) (flag (f_v s)) (flag (f_c s))
-              (flag (f_cb s)) p q R0 W1 (mr_word _ _ WM) A) as (n & c' & E & Q1 & Q2 & Q3 & Q4 & Q5 & Q6 & Q7).
+              (flag (f_cb s)) p q R0 W1 (mr_word _ _ WM) A) as (n & c' & E & Q1 & Q2 & Q3 & Q4 & Q5 & Q6 & Q7 & _).
   pose proof (sim_core_of s L) as S0. unfold core_of in S0. rewrite P in S0.
   destruct (sim_run base malloc_reg_code malloc_reg_valid n s _ c' S0 E) as (s' & Rn & S').
   exists n, s'. split; [exact Rn|].
